@@ -105,6 +105,9 @@ def problems_of(L, art, norm):
 
 def run_case(case, ctx):
     L, mon = ctx["L"], ctx["mon"]
+    miss = mon.need("_preprocess_string")       # the span clause refers to the normalised text, observed at the normaliser
+    if miss:
+        return miss
     ts = C.parse_ts(case["ts"])
     key = json.dumps([case["t"], case["ts"], case["o"]], ensure_ascii=False, sort_keys=True)
     cls = case["g"]
